@@ -2,6 +2,15 @@
    Only statements; every proof is `exact <lemma proved elsewhere>`. *)
 From BU Require Import Lib.Bytes Bloom.Murmur3 Bloom.Bloom Bloom.Bip37Spec Bloom.BloomProofs Bloom.Bip37Proofs.
 From BU Require Import Bloom.SizingProofs.
+From BU Require Import Gen.Kernels Tie.KernelsTieMurmur.
+
+(* the hand-written MurmurHash3 model equals the Gallina term that harness/cmd/gotrans translates from the AST of
+   bloom/murmurhash3.go on every run: a structural change of MurmurHash3 breaks this obligation *)
+Theorem C09_murmur3_is_translated_source : forall seed data,
+  seed < 2 ^ 32 -> Bytes data -> N.of_nat (length data) < 2 ^ 32 ->
+  Kernels.MurmurHash3 seed data = murmur3 seed data.
+Proof. exact MurmurHash3_tie. Qed.
+Print Assumptions C09_murmur3_is_translated_source.
 
 (* an item just added to a loaded filter matches (len_ok: uint32(len)<<3 does not wrap, implied by the wire limit) *)
 Theorem C09_add_matches : forall f x, len_ok f -> is_loaded f = true -> matches (add f x) x = true.
